@@ -9,4 +9,7 @@ open Emboss.Json
 
 theorem schema_ok : SchemaOk schema := by decide +kernel
 
+/-- … and every constructor default is a value of its field's type. -/
+theorem schema_ok_strict : SchemaOkStrict schema := by decide +kernel
+
 end Emboss.Json.Generated
